@@ -135,7 +135,7 @@ func runWorker(ws workerSpec) *workerResult {
 	}
 	gmp := ws.GOMAXPROCS
 	if gmp == 0 {
-		gmp = 1
+		gmp = defaultGOMAXPROCS
 	}
 	env = append(env, "GOMAXPROCS="+strconv.Itoa(gmp), "GORACE=halt_on_error=0 history_size=5")
 	cmd.Env = env
@@ -315,6 +315,10 @@ func isLibFrame(path, scratch string) bool {
 }
 
 var scratchRoot string // set by the orchestrator once the scratch copy exists
+
+// defaultGOMAXPROCS is 1 for simulated runs (one baton holder at a time) and 4 in
+// the degraded mode (real parallel goroutines).
+var defaultGOMAXPROCS = 1
 
 func classifyRace(run int64, seed uint64, body []string) raceReport {
 	rr := raceReport{Run: run, Seed: seed, Text: strings.Join(body, "\n")}
